@@ -2,6 +2,7 @@ import BddVerif.Props.C01
 import BddVerif.Lemmas.AlgoEqUtilSpec
 import BddVerif.Lemmas.AlgoEqApply
 import BddVerif.Lemmas.AlgoEqTernary
+import BddVerif.Lemmas.AlgoEq2RelPanic
 #print axioms B.Props.C01.apply_pointwise
 #print axioms B.Props.C01.eager_lazy_same
 #print axioms B.Props.C01.apply_canonical_form
@@ -30,3 +31,10 @@ import BddVerif.Lemmas.AlgoEqTernary
 #print axioms B.ternary_apply_eq_model
 #print axioms B.ternary_apply_eq_canon
 #print axioms B.Bdd_ternary_op_eq_model_driver
+#print axioms B.AlgoEq2Rel.Bdd_and_eq_canon
+#print axioms B.AlgoEq2Rel.Bdd_or_eq_canon
+#print axioms B.AlgoEq2Rel.Bdd_xor_eq_canon
+#print axioms B.AlgoEq2Rel.Bdd_imp_eq_canon
+#print axioms B.AlgoEq2Rel.Bdd_iff_eq_canon
+#print axioms B.AlgoEq2Rel.Bdd_and_not_eq_canon
+#print axioms B.AlgoEq2Rel.connectives_panic_mismatch
